@@ -49,6 +49,20 @@ def stage_suite(ctx, judge="judge_stage_c01"):
         ss, shape = pc.gen_streams(ctx.rng, nmax=9)
         uts, _ = pc.gen_utilities(ctx.rng)
         cases.append((ss, uts, ctx.rng.random() < 0.7))
+    if ctx.thorough:
+        # exhaustive small scope: every problem of <= 2 streams over a 5-point lattice x CP {1,2} x dt {0,10}, and every
+        # problem of exactly 3 streams over the same lattice with CP 1, dt 0 (ties at coincident break points everywhere)
+        import itertools
+        L = [20.0, 40.0, 60.0, 80.0, 100.0]
+        types = [(a, b, cp, dt) for a in L for b in L if a != b for cp in (1.0, 2.0) for dt in (0.0, 10.0)]
+        small = [t for t in types if t[2] == 1.0 and t[3] == 0.0]
+        mk = lambda i, t: dict(zone="Z", name=f"E{i}", t_supply=t[0], t_target=t[1], heat_flow=t[2] * abs(t[0] - t[1]), dt_cont=t[3], htc=1.0)  # noqa: E731
+        for k in (1, 2):
+            for comb in itertools.combinations_with_replacement(types, k):
+                cases.append(([mk(i, t) for i, t in enumerate(comb)], [], True))
+        for comb in itertools.combinations_with_replacement(small, 3):
+            cases.append(([mk(i, t) for i, t in enumerate(comb)], [], True))
+        ctx.extra["stage_exhaustive"] = "all <=2-stream problems over {20..100 step 20} x CP{1,2} x dt{0,10}; all 3-stream problems with CP 1, dt 0"
     cf = CaseFile(ctx, "stage", HDR, shard=40)
     sts = []
     for ss, uts, shifted in cases:
